@@ -102,7 +102,20 @@ def matrix_of_points(pts, mode):
 
 
 def gen_points(rng, n, k):
-    style = rng.choice(["grid", "grid", "clusters", "clusters", "geometric", "multi", "perimeter", "perimeter"])
+    style = rng.choice(["grid", "grid", "clusters", "clusters", "geometric", "multi", "perimeter", "perimeter", "nested-loops", "nested-loops"])
+    if style == "nested-loops" and k >= 2:
+        # rectangle perimeters at several scales and offsets: loops of very different sizes (sparse and Rips diagrams differ)
+        pts = []
+        for _ in range(n):
+            sc = rng.choice([1, 1, 4, 16, 64])
+            a = rng.choice([2, 3, 4, 6])
+            t = rng.randrange(4 * a)
+            p = [t, 0] if t < a else [a, t - a] if t < 2 * a else [3 * a - t, a] if t < 3 * a else [0, 4 * a - t]
+            off = rng.choice([0, 0, 100, 300])
+            pts.append([sc * p[0] + off, sc * p[1]] + [0] * (k - 2))
+        return pts, style
+    if style == "nested-loops":
+        style = "grid"
     if style == "perimeter" and k >= 2:
         # points on the boundary of an axis-parallel rectangle (a loop), sometimes with jitter
         a, b = rng.choice([(4, 4), (8, 8), (8, 4), (16, 16), (12, 6), (32, 32)])
@@ -221,7 +234,18 @@ def gen_metric_matrix(rng, n):
             pos.append(pos[-1] + x)
         rng.shuffle(pos)
         m = [[abs(a - b) for b in pos] for a in pos]
-    return closure(m), style
+    m = closure(m)
+    if rng.random() < 0.3 and n >= 4:
+        # two groups pulled apart by a large factor: a multi-scale metric
+        kf = rng.choice([4, 16, 50])
+        grp = set(rng.sample(range(n), n // 2))
+        for a in range(n):
+            for b in range(n):
+                if (a in grp) != (b in grp):
+                    m[a][b] *= kf
+        m = closure(m)
+        style += "+stretched"
+    return m, style
 
 
 def rips_size(n, dim):
